@@ -173,8 +173,19 @@ struct Fixture {
         if ( ok ) return { 1, v };
         return { 0 };
     }
-    void finish( std::ostream& )
+    void finish( std::ostream& out )
     {
+        // sequential drain by the main thread (alternating ends) after every scheduled operation
+        uint64_t t = 1000000;
+        for ( int guard = 0; guard < 64; ++guard ) {
+            long v = 0;
+            bool front = ( guard % 2 ) == 0;
+            bool ok = front ? s->pop_front( v ) : s->pop_back( v );
+            out << "O 91 " << t << ' ' << t + 1 << ( front ? " pop_front :" : " pop_back :" );
+            if ( ok ) out << " 1 " << v << '\n'; else out << " 0\n";
+            t += 2;
+            if ( !ok ) break;
+        }
         if ( fcwatch::freed_linked ) {
             failed = true;
             std::ostringstream os;
